@@ -31,6 +31,10 @@ type Pub struct {
 	Topic       string `json:"topic"`
 	QoS         int    `json:"qos"`
 	Unreachable []int  `json:"unreachable"` // node indices that cannot be reached for this publish
+	// LostReply: node indices that execute the inter-node call of this publish but whose reply
+	// is lost (the caller gets "unavailable" after the remote append happened): the message is
+	// in that node's log once, the publisher is not acknowledged, and nothing is sent twice
+	LostReply []int `json:"lost_reply,omitempty"`
 }
 
 type Case struct {
@@ -126,6 +130,13 @@ func run(c Case) (f *failure, nontrivial bool) {
 			}
 		}
 		cl.SetUnreachable(ids...)
+		lost := map[int]bool{}
+		for _, u := range p.LostReply {
+			if u != c.PubNode && u < c.Nodes && !unreach[u] {
+				lost[u] = true
+				cl.Nodes[u].LoseReplies(1)
+			}
+		}
 		// H = nodes hosting a matching subscription the publishing node knows of
 		H := map[int]bool{}
 		for _, s := range c.Subs {
@@ -138,8 +149,8 @@ func run(c Case) (f *failure, nontrivial bool) {
 			if n != c.PubNode {
 				remoteInH = true
 			}
-			if unreach[n] {
-				hitUnreach = true
+			if unreach[n] || lost[n] {
+				hitUnreach = true // the publisher must not be acknowledged
 			}
 		}
 		if remoteInH || (len(unreach) > 0 && hitUnreach && len(H) > 1) {
@@ -155,6 +166,9 @@ func run(c Case) (f *failure, nontrivial bool) {
 			return f, nontrivial
 		}
 		cl.SetUnreachable()
+		for _, n := range cl.Nodes {
+			n.LoseReplies(0)
+		}
 		// (1) log appends per node
 		for ni, n := range cl.Nodes {
 			cnt := 0
@@ -168,14 +182,14 @@ func run(c Case) (f *failure, nontrivial bool) {
 				want = 1
 			}
 			if cnt != want {
-				return &failure{fmt.Sprintf("publish %d (%q, unreachable %v, known hosting nodes %v): appended %d time(s) to the log of node %d, want %d", pi, p.Topic, keys(unreach), keys(H), cnt, ni, want), false}, nontrivial
+				return &failure{fmt.Sprintf("publish %d (%q, unreachable %v, reply lost %v, known hosting nodes %v): appended %d time(s) to the log of node %d, want %d", pi, p.Topic, keys(unreach), keys(lost), keys(H), cnt, ni, want), false}, nontrivial
 			}
 		}
 		// (2) acknowledgement iff every node of H was reached
 		if p.QoS == 1 {
 			acked := pub.Has(sim.PUBACK, id)
 			if acked == hitUnreach {
-				return &failure{fmt.Sprintf("publish %d (%q, unreachable %v, known hosting nodes %v): PUBACK present=%v, want %v", pi, p.Topic, keys(unreach), keys(H), acked, !hitUnreach), false}, nontrivial
+				return &failure{fmt.Sprintf("publish %d (%q, unreachable %v, reply lost %v, known hosting nodes %v): PUBACK present=%v, want %v", pi, p.Topic, keys(unreach), keys(lost), keys(H), acked, !hitUnreach), false}, nontrivial
 			}
 		}
 		// (3) deliveries: on every node that got the message, every local matching subscription once; nowhere else
@@ -192,7 +206,7 @@ func run(c Case) (f *failure, nontrivial bool) {
 				want = 1
 			}
 			if got != want {
-				return &failure{fmt.Sprintf("publish %d (%q, unreachable %v, known hosting nodes %v): sub%d on node %d (filter %q, known=%v) received %d copies, want %d", pi, p.Topic, keys(unreach), keys(H), i, c.Subs[i].Node, c.Subs[i].Filter, c.Subs[i].Known, got, want), false}, nontrivial
+				return &failure{fmt.Sprintf("publish %d (%q, unreachable %v, reply lost %v, known hosting nodes %v): sub%d on node %d (filter %q, known=%v) received %d copies, want %d", pi, p.Topic, keys(unreach), keys(lost), keys(H), i, c.Subs[i].Node, c.Subs[i].Filter, c.Subs[i].Known, got, want), false}, nontrivial
 			}
 		}
 	}
@@ -279,6 +293,16 @@ func TestRandom(t *testing.T) {
 					}
 				}
 				c.Pubs = append(c.Pubs, Pub{Topic: topic, QoS: qos, Unreachable: u})
+			}
+			// and every non-empty subset of the remote nodes loses its reply once (the others reachable)
+			for mask := 1; mask < 1<<len(remotes); mask++ {
+				var u []int
+				for b, r := range remotes {
+					if mask&(1<<b) != 0 {
+						u = append(u, r)
+					}
+				}
+				c.Pubs = append(c.Pubs, Pub{Topic: topic, QoS: qos, LostReply: u})
 			}
 		}
 		check(t, c)
